@@ -10,12 +10,12 @@ import (
 )
 
 var validateRows = map[string]string{
-	"not-gated-in":  "a property that is not a configuration property, or carries no validate argument, is never validated and never fails",
-	"struct":        "a configuration property of struct kind (or pointer to struct) with a validate argument is validated exactly once with Struct() on its bound value",
-	"var":           "any other accessible configuration property with a validate argument is validated exactly once with Var() on its bound value and the argument's items joined by ','",
-	"inaccessible":  "a non-struct value that cannot be turned into an interface is skipped without error",
-	"error":         "a validator verdict becomes the stage's error, and nothing else does; later properties are not validated after a failure",
-	"continues":     "a property that needs no validation does not end the loop: the next property is still validated",
+	"not-gated-in": "a property that is not a configuration property, or carries no validate argument, is never validated and never fails",
+	"struct":       "a configuration property of struct kind (or pointer to struct) with a validate argument is validated exactly once with Struct() on its bound value",
+	"var":          "any other accessible configuration property with a validate argument is validated exactly once with Var() on its bound value and the argument's items joined by ','",
+	"inaccessible": "a non-struct value that cannot be turned into an interface is skipped without error",
+	"error":        "a validator verdict becomes the stage's error, and nothing else does; later properties are not validated after a failure",
+	"continues":    "a property that needs no validation does not end the loop: the next property is still validated",
 }
 
 // validateTable interprets the validation stage's PostProcessProperties - with whatever helpers it is split into - on a
